@@ -16,6 +16,7 @@ def run_model(steps):
         elif op == 'D':
             cur.pop(arg, None); exp[n] = 'ok'
         elif op in ('F', 'C', 'c'): exp[n] = 'ok'
+        elif op == 'A': exp[n] = 'audit:ok'
         elif op == 'S': snaps.append(dict(cur)); exp[n] = 'ok'
         elif op == 'R': snaps = []; exp[n] = 'ok'
         elif op == 'G':
